@@ -482,6 +482,65 @@ def gen_thm_and_items(ctx, rng, g):
                           {'kind': 'item', 'rule': rule, 'props': [S.jsonable(p) for p in props], 'unicode': u})
 
 
+def binder_chain(rng):
+    """2-4 nested binders of mixed kinds whose body mentions several of the bound variables and free variables;
+    names are drawn from a tiny pool so that free/bound/variant names collide"""
+    T = rng.choice([NAT, a_, REAL])
+    depth = rng.choice([2, 2, 3, 4])
+    names = rng.choice([['x', 'x1', 'y'], ['n', 'n1', 'n2'], ['a', 'b', 'a1']])
+    k = rng.choice([2, 3])
+    Rv = ('var', rng.choice(['R', 'P', 'Q']), S.funs(*([T] * k + [B])))
+    frees = [('var', nm, T) for nm in names[:2]]
+    args = []
+    for _ in range(k):
+        if rng.random() < 0.7:
+            args.append(('bound', rng.randrange(depth)))
+        else:
+            args.append(rng.choice(frees))
+    body = S.mk_comb(Rv, *args)
+    for lvl in range(depth):
+        kind = rng.choice(['all', 'exists', 'exists1', 'collect', 'lambda', 'all', 'exists'])
+        nm = rng.choice(names)
+        if kind in ('all', 'exists', 'exists1'):
+            body = ('comb', ('const', kind, S.fun(S.fun(T, B), B)), ('abs', nm, T, body))
+        elif kind == 'collect':
+            st = ('comb', ('const', 'collect', S.fun(S.fun(T, B), setT(T))), ('abs', nm, T, body))
+            # keep the result boolean: membership of a variable in the comprehension
+            elem = ('bound', rng.randrange(depth - lvl - 1)) if lvl < depth - 1 and rng.random() < 0.5 else rng.choice(frees)
+            body = S.mk_comb(('const', 'member', S.funs(T, setT(T), B)), elem, st)
+        else:
+            f = ('abs', nm, T, body)
+            elem = ('bound', rng.randrange(depth - lvl - 1)) if lvl < depth - 1 and rng.random() < 0.5 else rng.choice(frees)
+            pv = ('var', 'H', S.funs(S.fun(T, B), T, B))
+            body = S.mk_comb(pv, f, elem)
+    return body
+
+
+def clashify(rng, s):
+    """rename bound variables (an alpha-equivalent term) so that they clash with free variables, with enclosing
+    binders and with the variant names (x1) the printer would invent"""
+    free = [a[1] for a in S.atoms(s)]
+    pool = list(dict.fromkeys(free)) or ['x']
+    base = rng.choice(pool)
+
+    def walk(t):
+        k = t[0]
+        if k == 'comb':
+            return ('comb', walk(t[1]), walk(t[2]))
+        if k == 'abs':
+            r = rng.random()
+            nm = t[1]
+            if r < 0.55:
+                nm = base
+            elif r < 0.7:
+                nm = base + '1'
+            elif r < 0.8:
+                nm = rng.choice(pool)
+            return ('abs', nm, t[2], walk(t[3]))
+        return t
+    return walk(s)
+
+
 def setup():
     import warnings
     warnings.simplefilter('ignore')
@@ -498,11 +557,19 @@ def run_gen(ctx, spec):
     for k in range(spec['count']):
         g = Gen07(rng, sig, type_pool(), names=NAMES, p_svar=0.12, p_fresh=0.35, p_redex=0.08, overload=OVERLOAD,
                   weights={'const': 8, 'atom': 3, 'app': 1, 'abs': 2})
+        g.clash_bias = 0.45
         T = g.rand_type() if rng.random() < 0.5 else B
-        s = g.gen(T, rng.choice([1, 2, 2, 3, 3, 4]))
+        if rng.random() < 0.15:
+            s = binder_chain(rng)
+            ctx.count('binder_chains')
+        else:
+            s = g.gen(T, rng.choice([1, 2, 2, 3, 3, 4]))
         if not term_ok(s):
             ctx.count('gen_discarded')
             continue
+        if rng.random() < 0.35:
+            s = clashify(rng, s)          # alpha-equivalent renaming of binders towards free / enclosing names
+            ctx.count('name_clash_variants')
         nt = S.size(s) >= 4 and s[0] in ('comb', 'abs')
         judge_term(ctx, s, 'generated')
         if k % 3 == 0:
